@@ -148,6 +148,8 @@ def check(rep, F, tier, replay=None):
     who_assets_rule(rep, F)
     from ruleutil import arith_unused_rule
     arith_unused_rule(rep, F, None)
+    from ruleutil import value_sub_total_rule
+    value_sub_total_rule(rep, F)
     return rep.finish(
         EXPLANATION,
         ["BigNum's checked_* delegate to u64::checked_* (std)", "num-bigint arithmetic is exact", "wasm32 makes usize 32-bit: casts involving usize are marked target dependent in the table"],
